@@ -79,6 +79,7 @@ from dulwich.refs import (
     SYMREF,
     Ref,
     RefsContainer,
+    SymrefLoop,
 )
 
 if sys.version_info >= (3, 11):
@@ -1039,7 +1040,7 @@ class ReftableRefsContainer(RefsContainer):
             raise ValueError(f"Unknown ref value type: {value_type}")
 
         # Too many levels of indirection
-        raise ValueError(f"Too many levels of symbolic ref indirection for {name!r}")
+        raise SymrefLoop(name, MAX_SYMREF_DEPTH)
 
     def __getitem__(self, name: Ref) -> ObjectID:
         """Get the SHA1 for a reference name.
